@@ -44,10 +44,31 @@ def gen(rng, spec):
     return case
 
 
+def per_case(E, case, sums):
+    """results of the multiprocessing path reach the caller pickled: labels and head flags must survive that"""
+    import pickle
+    from vlib import oracle_cky
+    out = E.run(case)
+    if out['error'] is not None or not out['results']:
+        return
+    for lst in out['results']:
+        for st in lst:
+            try:
+                copy_ = pickle.loads(pickle.dumps(st.tree))
+            except Exception as e:
+                E.violation('tree:label-not-from-creating-rule', f'a returned tree cannot be pickled: {e!r}', {'case': search.case_to_json(case)})
+                return
+            E.R.count('monitor:pickled-tree-compared')
+            if oracle_cky.tree_to_tuple(copy_) != oracle_cky.tree_to_tuple(st.tree):
+                E.violation('tree:head-flag-not-from-rule', 'labels / head flags of a returned tree change when it is pickled (as the '
+                            'multiprocessing path does)', {'case': search.case_to_json(case)})
+                return
+
+
 def run(spec, R):
     if spec['kind'] == 'reader':
         return run_reader(spec, R)
-    SC.run(ID, PROP, spec, R, gen, lambda s, c: s.get('parsed') and max(len(x[0]) for x in c['sentences']) >= 2)
+    SC.run(ID, PROP, spec, R, gen, lambda s, c: s.get('parsed') and max(len(x[0]) for x in c['sentences']) >= 2, per_case)
 
 
 class FakeNltk:
